@@ -1820,8 +1820,25 @@ func (db *DB) verifyWithExecutor(ctx context.Context, exec *syncExecutor) (info 
 			"salt1", salt1,
 			"salt2", salt2)
 
+		prevOffset := info.offset
 		info.offset = WALHeaderSize
 		info.salt1, info.salt2 = salt1, salt2
+
+		// The matching last page only proves that nothing up to our position was
+		// overwritten. Continuing from the new header is safe only if the old
+		// generation ended exactly where we stopped reading and the WAL was
+		// restarted exactly once since: a frame of the old generation right
+		// after our position, or a salt that is not the old one plus one, means
+		// frames may have been checkpointed away unseen.
+		if salt1 != dec.Header().WALSalt1+1 {
+			info.reason = "wal restarted more than once or recreated, snapshotting"
+			return info, nil
+		}
+		if frame, err := readWALFileAt(db.WALPath(), prevOffset, WALFrameHeaderSize); err == nil &&
+			binary.BigEndian.Uint32(frame[8:]) == dec.Header().WALSalt1 && binary.BigEndian.Uint32(frame[12:]) == dec.Header().WALSalt2 {
+			info.reason = "previous wal generation extends past last synced frame, snapshotting"
+			return info, nil
+		}
 
 		if detected, err := db.detectFullCheckpoint(ctx, [][2]uint32{{salt1, salt2}, {dec.Header().WALSalt1, dec.Header().WALSalt2}}); err != nil {
 			return info, fmt.Errorf("detect full checkpoint: %w", err)
